@@ -138,11 +138,23 @@ def refines(st, got, want):
             v = as_poly(x[1])
             if v == Poly.atom(("elem", want[2])) or v == Poly.atom(("lbl", ("elem", want[2]))):
                 return True
-    if want[0] == "cumsum" and got[0] == "concat" and len(got) == 3:
+    if want[0] == "cumsum" and got[0] == "concat":
+        # consecutive pieces of the prefix sums 0, x0, x0+x1, ..., sum: each piece is a window [lo, hi) of cumsum(X)
         X = want[1]
-        a_, b_ = got[1], got[2]
-        if a_ == ("slice", ("cumsum", X), Poly.const(0), t_len(X)) and b_[0] == "fill" and st.eq(as_poly(b_[2]), 1) \
-                and st.eq(as_poly(b_[1]), t_sum(X)):
+        n = t_len(X)
+        pos = Poly.const(0)
+        ok = True
+        for part in got[1:]:
+            if part[0] == "slice" and part[1] == ("cumsum", X) and st.eq(as_poly(part[2]), pos):
+                pos = as_poly(part[3])
+            elif part[0] == "fill" and st.eq(as_poly(part[2]), 1) and st.eq(pos, 0) and st.eq(as_poly(part[1]), 0):
+                pos = Poly.const(1)
+            elif part[0] == "fill" and st.eq(as_poly(part[2]), 1) and st.eq(pos, n) and st.eq(as_poly(part[1]), t_sum(X)):
+                pos = n + 1
+            else:
+                ok = False
+                break
+        if ok and st.eq(pos, n + 1):
             return True
     if want[0] == "zero" and got[0] == "sel":
         X = want[1]
